@@ -131,11 +131,17 @@ zgscon(char *norm, SuperMatrix *L, SuperMatrix *U,
 	    
 	} else {
 
+	    /* Multiply by inv(U**H) and inv(L**H): ?lacon_ asks for the CONJUGATE
+	       transpose; inv(A**H) x = conj( inv(A**T) conj(x) ). */
+	    for (i = 0; i < L->nrow; ++i) work[i].i = -work[i].i;
+
 	    /* Multiply by inv(U'). */
 	    sp_ztrsv("Upper", "Transpose", "Non-unit", L, U, &work[0], info);
 
 	    /* Multiply by inv(L'). */
 	    sp_ztrsv("Lower", "Transpose", "Unit", L, U, &work[0], info);
+
+	    for (i = 0; i < L->nrow; ++i) work[i].i = -work[i].i;
 	    
 	}
 
